@@ -86,7 +86,7 @@ TraceStep ==
               root' = EmptyState /\ codes' = [i \in {} |-> 0] /\ block' = Block0 /\ bad' = <<>>
          [] Line.ev = "admin" ->
               LET a == AdminCall(codes, block, Line.call) IN
-              /\ codes' = a.codes /\ block' = a.block /\ UNCHANGED root
+              /\ codes' = a.codes /\ block' = a.block /\ root' = AfterAdmin(root, Line.call, a.block)
               /\ bad' = IF a.ok # Line.ok THEN <<"admin call result", Line.ok>> ELSE <<>>
          [] Line.ev = "call" ->
               LET r == RunTx(root, codes, block, Line.call, Line.sc) IN
